@@ -227,6 +227,13 @@ def want_shape(sl, rows, cols):
 INT_KEY = "C01.coords.int_index_shape"
 
 
+def int_int_chunks(rq, res):
+    """the known class: get_lonlats(data_slice=(int, int), chunks=...) raises AttributeError in _invproj (0-d blocks)"""
+    sl = rq.get("slice")
+    return (sl is not None and sl[0] == "pair" and isinstance(sl[1], int) and isinstance(sl[2], int)
+            and rq.get("chunks") is not None and res.get("error") == "AttributeError")
+
+
 def sel(n, s):
     """numpy basic indexing of an axis of length n, as an index list."""
     if s is None:
@@ -519,9 +526,11 @@ class Eval:
         want = (len(rows), len(cols))
         ws = want_shape(sl, rows, cols)
         if X["shape"] != ws or Y["shape"] != ws:
-            self.fail(INT_KEY if has_int(sl) else key + ".shape", "%s returns shape %s, expected %s%s" % (
-                what, X["shape"], ws, " (an integer index drops its axis, as for the dask / cached / plain-array paths)" if has_int(sl) else ""))
-            return None
+            int_only = has_int(sl) and X["shape"] == Y["shape"] and [d for d in X["shape"] if d != 1] == [d for d in ws if d != 1]
+            self.fail(INT_KEY if int_only else key + ".shape", "%s returns shape %s, expected %s%s" % (
+                what, X["shape"], ws, " (an integer index drops its axis, as for the dask / cached / plain-array paths)" if int_only else ""))
+            if not int_only:
+                return None     # otherwise only length-1 axes differ: the values are still checked below
         Xa = np.asarray(X["data"], dtype=float).reshape(want)
         Ya = np.asarray(Y["data"], dtype=float).reshape(want)
         for i, r in enumerate(rows):
@@ -607,7 +616,7 @@ class Eval:
             ctx.count("coords_" + kind)
             what = "get_proj_coords(data_slice=%r, chunks=%r, dtype=%r)" % (rq.get("slice"), rq.get("chunks"), rq.get("dtype"))
             if "error" in res:
-                self.fail(INT_KEY if has_int(rq.get("slice")) else "C01.coords.error", "%s raised %s" % (what, res))
+                self.fail("C01.coords.error", "%s raised %s" % (what, res))
                 continue
             rows, cols = self.rows_cols(rq.get("slice"))
             X, Y = res["xy"]
@@ -829,7 +838,7 @@ class Eval:
                                  "impl": st.get("value") or (st.get("ll") or [{}])[0].get("shape") or st}))
                 key = self.ll_key("history." + acc, acc == "colrow2lonlat") if self.cls == "derived_geographic" else "C01.lonlat.history." + acc
                 if "error" in st:
-                    self.fail(INT_KEY if (has_int(op.get("slice")) and st.get("error") == "AttributeError") else key, "%s raised %s" % (what, st), {"history": hist, "step": k})
+                    self.fail(INT_KEY if int_int_chunks(op, st) else key, "%s raised %s" % (what, st), {"history": hist, "step": k})
                     good = False
                     break
                 if acc == "get_lonlats":
@@ -838,10 +847,11 @@ class Eval:
                     want = [len(rows), len(cols)]
                     ws = want_shape(op.get("slice"), rows, cols)
                     if LO["shape"] != ws or LA["shape"] != ws:
-                        int_only = has_int(op.get("slice")) and sorted(d for d in LO["shape"] if d != 1) == sorted(d for d in ws if d != 1)
+                        int_only = has_int(op.get("slice")) and LO["shape"] == LA["shape"] and [d for d in LO["shape"] if d != 1] == [d for d in ws if d != 1]
                         self.fail(INT_KEY if int_only else key, "%s returns shape %s, the selected grid has shape %s" % (what, LO["shape"], ws), {"history": hist, "step": k})
-                        good = False
-                        break
+                        if not int_only:
+                            good = False
+                            break
                     lo = np.asarray(LO["data"], dtype=float).reshape(want)
                     la = np.asarray(LA["data"], dtype=float).reshape(want)
                     f32 = LO["dtype"] == "float32"
@@ -958,7 +968,7 @@ class Eval:
             what = "get_lonlats(data_slice=%r, chunks=%r, dtype=%r%s)" % (rq.get("slice"), rq.get("chunks"), rq.get("dtype"), ", nprocs=2" if rq.get("nprocs") else "")
             ctx.count("lonlats_" + ("dask" if rq.get("chunks") is not None else "nprocs2" if rq.get("nprocs") else "numpy") + ("_f32" if rq.get("dtype") else "") + ("_sliced" if rq.get("slice") else ""))
             if "error" in res:
-                self.fail(INT_KEY if has_int(rq.get("slice")) else "C01.lonlats.error", "%s raised %s" % (what, res))
+                self.fail(INT_KEY if int_int_chunks(rq, res) else "C01.lonlats.error", "%s raised %s" % (what, res))
                 continue
             rows, cols = self.rows_cols(rq.get("slice"))
             LO, LA = res["ll"]
@@ -969,8 +979,10 @@ class Eval:
             want = [len(rows), len(cols)]
             ws = want_shape(rq.get("slice"), rows, cols)
             if LO["shape"] != ws or LA["shape"] != ws:
-                self.fail(INT_KEY if has_int(rq.get("slice")) else "C01.lonlats.shape", "%s returns shape %s, expected %s" % (what, LO["shape"], ws))
-                continue
+                int_only = has_int(rq.get("slice")) and LO["shape"] == LA["shape"] and [d for d in LO["shape"] if d != 1] == [d for d in ws if d != 1]
+                self.fail(INT_KEY if int_only else "C01.lonlats.shape", "%s returns shape %s, expected %s" % (what, LO["shape"], ws))
+                if not int_only:
+                    continue
             f32 = rq.get("dtype") == "float32"
             if LO["dtype"] != ("float32" if f32 else "float64"):
                 self.fail("C01.lonlats.dtype", "%s returns dtype %s" % (what, LO["dtype"]))
